@@ -15,13 +15,16 @@
 //!       rdeleg <actions csv> <scope> <cons>        (a Delegation lead → reader; the reader may hold nothing else)
 //!       mdeleg <actions csv> <scope> <cons>        (a re-delegable Delegation lead → mid; every `rdeleg` then is mid → reader with it as parent;
 //!                                                   `f=@mask` = the case's field mask, `f=@only` = the masked member alone)
+//!       pallow <scope> <cons>                      (an allow statement for the reader on the Space's bound policy, every read-side
+//!                                                   permission; `e=` names elements — authority that comes ONLY from the policy)
 //!       mask <none|attributes|name>                (which member the Grants' field mask hides)
 //!       q <command text; <<id:NAME>> = that element's id in the store at hand, <<seq:K>> / <<seqmid:K>> = the Space
 //!          sequence after step K / between creating and classifying the element of step K>
 //!       page <limit> <command text>                (run, then follow the cursor once)
 use crate::wire::*;
 use crate::{fresh, CaseOut};
-use anda_cognitive_nexus::governance::store::{DelegationDraft, GrantDraft, PrincipalDraft};
+use anda_cognitive_nexus::governance::rows::PolicyStatement;
+use anda_cognitive_nexus::governance::store::{DelegationDraft, GrantDraft, PolicyDraft, PrincipalDraft};
 use anda_cognitive_nexus::governance::{AuthContext, SYSTEM_PRINCIPAL};
 use anda_cognitive_nexus::nexus::{Session, DEFAULT_SPACE};
 use anda_cognitive_nexus::ElementId;
@@ -195,6 +198,7 @@ pub async fn run(ops: &[String], model: &mut Option<ModelProc>) -> Result<CaseOu
     let mut dgrants: Vec<(String, String, String)> = vec![]; // (actions, scope, cons) of the delegator
     let mut rdelegs: Vec<(String, String, String)> = vec![]; // (actions, scope, cons) of Delegations lead → reader
     let mut mdeleg: Option<(String, String, String)> = None; // the middle link lead → mid of a chain
+    let mut pallows: Vec<(String, String)> = vec![]; // allow statements of the bound policy naming the reader
     let mut mask = "none".to_string();
     let mut queries: Vec<(Option<usize>, String)> = vec![];
     for op in ops {
@@ -207,13 +211,14 @@ pub async fn run(ops: &[String], model: &mut Option<ModelProc>) -> Result<CaseOu
             ["dgrant", acts, sc, cs] => dgrants.push((acts.to_string(), sc.to_string(), cs.to_string())),
             ["rdeleg", acts, sc, cs] => rdelegs.push((acts.to_string(), sc.to_string(), cs.to_string())),
             ["mdeleg", acts, sc, cs] => mdeleg = Some((acts.to_string(), sc.to_string(), cs.to_string())),
+            ["pallow", sc, cs] => pallows.push((sc.to_string(), cs.to_string())),
             ["mask", m] => mask = m.to_string(),
             ["q", ..] => queries.push((None, op[2..].to_string())),
             ["page", lim, ..] => { let l: usize = lim.parse().map_err(|_| "bad page")?; queries.push((Some(l), op[5 + lim.len() + 1..].to_string())); }
             _ => return Err(format!("bad op: {op}")),
         }
     }
-    if grants.is_empty() && rdelegs.is_empty() { return Err("no rgrant / rdeleg".into()); }
+    if grants.is_empty() && rdelegs.is_empty() && pallows.is_empty() { return Err("no rgrant / rdeleg / pallow".into()); }
 
     // ---- S: the full store ---------------------------------------------------------------------
     let s_nexus = fresh(true).await?;
@@ -323,11 +328,33 @@ pub async fn run(ops: &[String], model: &mut Option<ModelProc>) -> Result<CaseOu
         gov.create_delegation(DelegationDraft { space_id: DEFAULT_SPACE.into(), delegator_principal: dor.into(), delegate_principal: READER.into(), actions: csv(acts), scope, constraints: cons, parent_delegation: parent, ..Default::default() }, dor)
             .await.map_err(|e| format!("{e:?}"))?;
     }
+    // authority from the Space's policy alone: allow statements naming the reader (a statement's own classification ceiling
+    // does not enter matching — only its scope and conditions do)
+    if !pallows.is_empty() {
+        let mut statements = vec![];
+        let mut line = format!("policy kip:policy:nonint {}", pallows.len());
+        for (sc, cs) in &pallows {
+            let (scope, mut cons) = resolve(sc, cs, true)?;
+            cons.max_classification = String::new();
+            let mut g = rg(&scope, &cons, READ_ACTIONS.iter().map(|a| a.to_string()).collect());
+            g.ceiling = String::new();
+            rgrants.push(g);
+            line.push_str(&format!(" allow {READER} - {} {} p=-;pa=-;as=-;from=0;until=0 {} a=0;n=0;r=-", READ_ACTIONS.join(","), scope_tok(&scope), show_cons(&cons)));
+            statements.push(PolicyStatement { effect: "allow".into(), principals: vec![READER.into()], actions: READ_ACTIONS.iter().map(|a| a.to_string()).collect(), resource: scope, constraints: cons, ..Default::default() });
+        }
+        gov.publish_policy(PolicyDraft { policy_id: "kip:policy:nonint".into(), space_id: DEFAULT_SPACE.into(), description: String::new(), statements }, SYSTEM_PRINCIPAL).await.map_err(|e| format!("{e:?}"))?;
+        let mut space = s_nexus.store.get_space(DEFAULT_SPACE).await.map_err(|e| format!("{e:?}"))?;
+        space.default_policy_id = "kip:policy:nonint".into();
+        s_nexus.store.put_space(&space).await.map_err(|e| format!("{e:?}"))?;
+        model_lines.push(line);
+        model_lines.push(format!("space {DEFAULT_SPACE} {} {} {} kip:policy:nonint {} {}", show_str(&space.owner_principal), show_csv(&space.owners), space.status, show_str(&space.default_classification), space.audit_mode));
+        out.hits.push("nonint:authority-from-policy-statements".into());
+    }
     let reader_auth = AuthContext::principal(READER);
     let reader = s_nexus.session(reader_auth.clone());
 
     // ---- readable(p): harness reading, real may_read, model decision -----------------------------
-    let ea = reader.effective_authority(DEFAULT_SPACE).await.map_err(|e| format!("{e:?}"))?;
+    let _ea = reader.effective_authority(DEFAULT_SPACE).await.map_err(|e| format!("{e:?}"))?;
     if let Some(m) = model.as_mut() { for l in &model_lines { m.ask(l); } }
     let mut elem_readable = vec![false; elems.len()];
     let mut prop_readable = vec![false; props.len()];
@@ -339,7 +366,8 @@ pub async fn run(ops: &[String], model: &mut Option<ModelProc>) -> Result<CaseOu
         };
         let el = s_nexus.store.get_element(id.parse().map_err(|_| "id")?).await.map_err(|e| format!("{e:?}"))?;
         let mine = rgrants.iter().any(|g| reads(g, kind, el.schema_ref(), &class, &id));
-        let real = ea.may_read(&el, &reader_auth).is_some();
+        // a fresh resolution per element: nothing a request-level cache could have remembered enters the oracle's readable set
+        let real = reader.effective_authority(DEFAULT_SPACE).await.map_err(|e| format!("{e:?}"))?.may_read(&el, &reader_auth).is_some();
         match it { Item::Elem(i) => elem_readable[*i] = mine, Item::Prop(i) => prop_readable[*i] = mine }
         if mine != real {
             out.failures.push(("nonint:readable-set".into(), format!("the real may_read({name}) differs from the Grants' plain reading"), ops.to_vec(), format!("readable={mine}"), format!("readable={real}")));
@@ -521,15 +549,19 @@ const CLASSES: [&str; 5] = ["-", "public", "internal", "private", "secret"];
 
 pub fn gen_case(r: &mut Rng) -> Vec<String> {
     let mut ops = vec!["mode nonint".to_string()];
+    // one case in five: authority comes ONLY from allow statements of the bound policy that name elements, and the population
+    // has several siblings of one kind / type / classification around the named ones
+    let policy_mode = r.chance(1, 5);
+    let sibling_class = *r.pick(&CLASSES);
     let n = 5 + r.usize(8);
     let mut classes = vec![];
     let mut types = vec![];
     for i in 0..n {
-        let class = *r.pick(&CLASSES);
+        let class = if policy_mode && !r.chance(1, 6) { sibling_class } else { *r.pick(&CLASSES) };
         classes.push(class);
         let rank = if r.chance(1, 6) { "-".to_string() } else { r.range(0, 9).to_string() };
         let tag = if r.chance(1, 5) { "-" } else { *r.pick(&TAGS) };
-        let ty = if r.chance(1, 5) { "Preference" } else { "Person" };
+        let ty = if !policy_mode && r.chance(1, 5) { "Preference" } else { "Person" };
         types.push(ty);
         ops.push(format!("elem n{i:02} {ty} {rank} {tag} {class}"));
     }
@@ -547,7 +579,19 @@ pub fn gen_case(r: &mut Rng) -> Vec<String> {
     }
     // the reader's Grants
     let mask = match r.below(6) { 0 | 1 => "attributes", 2 => "name", _ => "none" };
-    let delegate_mode = r.chance(1, 3);
+    let delegate_mode = !policy_mode && r.chance(1, 3);
+    if policy_mode {
+        // named first (lowest id), last (highest id) or in the middle: both load orders relative to the unnamed siblings
+        let k = 1 + r.usize(2);
+        let mut named: Vec<String> = vec![];
+        for _ in 0..k {
+            let i = match r.below(4) { 0 => 0, 1 => n - 1, _ => r.usize(n) };
+            let nm = format!("n{i:02}");
+            if !named.contains(&nm) { named.push(nm); }
+        }
+        ops.push(format!("pallow k=-;t=-;c=-;e={} f=-;mr=-;mi=-;mc=-;x=1", named.join(",")));
+        if r.chance(1, 3) { ops.push(format!("pallow k=-;t=-;c={};e=- f=-;mr=-;mi=-;mc=-;x=1", r.pick(&["secret", "private"]))); }
+    }
     if delegate_mode {
         // the reader holds nothing but Delegations of `lead`, who holds `read` narrowed one way and the other read-side
         // permissions narrowed another way (or not at all): covered, mixed and wider Delegations
@@ -570,7 +614,7 @@ pub fn gen_case(r: &mut Rng) -> Vec<String> {
             ops.push(format!("rdeleg {} {} f=-;mr=-;mi=-;mc={};x=1", READ_ACTIONS.join(","), b.0, b.1));
         }
     }
-    let chain_mode = !delegate_mode && r.chance(1, 3);
+    let chain_mode = !delegate_mode && !policy_mode && r.chance(1, 3);
     let mut mask_override: Option<&str> = None;
     if chain_mode {
         // a chain lead → mid → reader bounded on ONE dimension; the child's list is, relative to the middle link's, equal / a
@@ -602,7 +646,7 @@ pub fn gen_case(r: &mut Rng) -> Vec<String> {
         ops.push(format!("mdeleg {} {}", READ_ACTIONS.join(","), tok(&pv)));
         ops.push(format!("rdeleg {} {}", READ_ACTIONS.join(","), tok(&cv)));
     }
-    let ng = if delegate_mode || chain_mode { 0 } else { 1 + r.usize(2) };
+    let ng = if delegate_mode || chain_mode || policy_mode { 0 } else { 1 + r.usize(2) };
     for _ in 0..ng {
         let ceiling = *r.pick(&["-", "public", "internal", "internal", "private"]);
         let scope = match r.below(8) {
